@@ -158,7 +158,9 @@ Time steps per year,4
 
 GEO_INPUTS = {
     'Gradient 1': dict(ok=[('uniform', 55, 75), ('normal', 65, 2), ('triangular', 60, 65, 72)], edge=[]),
-    'Drawdown Parameter': dict(ok=[('uniform', 0.000012, 0.000018), ('triangular', 0.004, 0.005, 0.006)], edge=[]),
+    # (the third range straddles the point where net electricity production turns negative and the report drops a line: the layout
+    # of the report then differs between the iterations of one run)
+    'Drawdown Parameter': dict(ok=[('uniform', 0.000012, 0.000018), ('triangular', 0.004, 0.005, 0.006), ('uniform', 0.00001, 0.0006)], edge=[]),
     'Utilization Factor': dict(ok=[('uniform', 0.7, 0.95), ('triangular', 0.8, 0.9, 0.99)], edge=[('uniform', 0.9, 1.1)]),
     'Ambient Temperature': dict(ok=[('triangular', 10, 15, 20), ('normal', 15, 1)], edge=[('uniform', 40, 60)]),
     'Production Flow Rate per Well': dict(ok=[('uniform', 80, 120), ('lognormal', 4.6, 0.05)], edge=[]),
@@ -242,3 +244,13 @@ Density Of Reservoir Rock, 1e11
 """
 HIP_9999_INPUT = {'name': 'Rock Heat Capacity', 'dist': 'uniform', 'args': [6.66590e12, 6.66614e12], 'edge': False, 'discrete': False}
 HIP_9999_OUTPUTS = ['Specific Enthalpy (rock)', 'Producible Electricity (reservoir)']
+
+
+# a GEOPHIRES set-up (GEO_BASE_2) whose report drops a line for part of the sampled range (values checked against the pinned
+# tree: impedance below ~0.012 -> wells flow without pumping; drawdown above ~0.00025 -> conversion efficiency not positive)
+GEO_LAYOUT_INPUTS = [
+    {'name': 'Reservoir Impedance', 'dist': 'uniform', 'args': [0.008, 0.02], 'edge': False, 'discrete': False},
+    {'name': 'Drawdown Parameter', 'dist': 'uniform', 'args': [0.00001, 0.0006], 'edge': False, 'discrete': False},
+    {'name': 'Reservoir Impedance', 'dist': 'triangular', 'args': [0.005, 0.012, 0.03], 'edge': False, 'discrete': False},
+]
+GEO_LAYOUT_OUTPUTS = ['Average Pumping Power', 'Heat to Power Conversion Efficiency']
